@@ -141,7 +141,17 @@ def check_field(rep, facts, cfgname, f, backend_filter=None):
             rep.ob(key("TWO_ADIC_ROOT_OF_UNITY=g^t", be), w == pow(g, t, p),
                    "TWO_ADIC_ROOT_OF_UNITY %s must equal MULTIPLICATIVE_GENERATOR^TRACE = %s" % (hex(w), hex(pow(g, t, p))),
                    where=get("TWO_ADIC_ROOT_OF_UNITY")["sp"])
-        fec("QUADRATIC_NON_RESIDUE_TO_TRACE", root_ok, "c^t for a non-residue c, i.e. exact order 2^%d" % s)
+        qt = fec("QUADRATIC_NON_RESIDUE_TO_TRACE", root_ok, "c^t for a non-residue c, i.e. exact order 2^%d" % s)
+        qn = get("QUADRATIC_NON_RESIDUE")
+        if qt is not None and qn is not None:
+            try:
+                qv = felt(qn["value"]["val"], f)[1]
+                if pow(qv, t, p) != qt:
+                    src = "MULTIPLICATIVE_GENERATOR^TRACE" if g is not None and pow(g, t, p) == qt else "another non-residue"
+                    rep.info("%s/%s: QUADRATIC_NON_RESIDUE_TO_TRACE has the required exact order 2^%d but is %s, not QUADRATIC_NON_RESIDUE^TRACE of the "
+                             "published QUADRATIC_NON_RESIDUE (both generate the 2-Sylow subgroup; only the defining order property is required)" % (f, be, s, src))
+            except Exception:
+                pass
         c = get("N")
         if c is not None:
             want = n64 if be == "u64" else n32
